@@ -24,6 +24,7 @@ pub const FAMILIES: &[(&str, u64)] = &[
     ("medium-hints", 1),
     ("many-excl", 1),
     ("many-excl-hints", 1),
+    ("many-soft-hints", 1),
     ("cyclic", 3),
 ];
 
